@@ -23,10 +23,17 @@
 // The attacker is a sequence of 1..2 (thorough: 1..3) *toggles* of one directory entry X between its
 // benign state A and a malicious state B, each toggle being ONE atomic rename(2)/renameat2(2) of a
 // prepared object, performed by the tracer while the child is stopped immediately before step k
-// (swap), j > k (swap back), l > j (swap again).  For every scenario all k (and all j, l) are explored:
-// that is every interleaving of the attacker's sequence with the lookup's syscall sequence.  The
+// (swap), j > k (swap back), l > j (swap again).  For every scenario all k and all j are explored:
+// that is every interleaving of a 1-2 step attacker with the lookup's syscall sequence.  The
 // execution tree is walked by re-execution; after a toggle the lookup's own continuation (its step
 // count) is re-measured, so the enumeration is complete also where the swap changes the path taken.
+// Third toggles (thorough) are placed only before steps that can observe X (partial-order reduction:
+// a toggle commutes with read/close on an open descriptor and with path syscalls on the root or its
+// ancestors, because X lies strictly below the canonical root).  The independence claim is checked on
+// the fully enumerated levels: a toggle before an independent step must give the same outcome as the
+// toggle before the following step (`por_independence_checks`, mismatch = harness-internal violation).
+// The lookup observes X at most four times (stat, readlink, stat, open), so 3 alternations from both
+// start states realise every combination of "state of X seen by each observation".
 //
 //   kinds (X, A -> B)
 //     leaf-target   X = canonical file T the name resolves to;   regular file -> symlink to SECRET
@@ -44,6 +51,7 @@
 // in assets.hpp l.35-38 as outside v1 scope) are explored and only counted (`residual_*` counters).
 #include "C20_common.hpp"
 #include "bexh.hpp"
+#include <sched.h>
 #include <signal.h>
 #include <sys/ptrace.h>
 #include <sys/syscall.h>
@@ -502,7 +510,8 @@ struct Env
   Alphabet A;
   std::unique_ptr<Assets> cold, warm, perreq;
   bool verbose = false;
-  int depth = 2;
+  int depth = 2;     // max number of attacker toggles
+  int fullDepth = 2; // up to this many toggles: every syscall position; beyond: partial-order reduced
 };
 
 std::string dirnameOf(const std::string &p) { return p.substr(0, p.rfind('/')); }
@@ -650,6 +659,7 @@ struct Explorer
     ++r.traces;
     if (run.togglesDone > 0)
       ++r.distinct_nontrivial;
+    ++r.counters["executions_with_toggles:" + std::to_string(run.togglesDone)];
     r.transitions += run.steps.size() + uint64_t(run.togglesDone);
     for (uint64_t h : run.prefixHashes)
       states.insert(h);
@@ -662,6 +672,7 @@ struct Explorer
     // `name=` must stay last for parsing: put toggles before it
     std::string kase = sc->text();
     kase.insert(kase.find(" name="), " toggles=" + (at_.empty() ? std::string("-") : at_));
+    lastCase = kase;
     if (e.verbose)
       printf("  run toggles=[%s] steps=%zu status=%c bytes=%s%s%s\n   %s\n", at_.c_str(), run.steps.size(), run.res.status,
              vr::jstr(e.t.rel(run.res.bytes)).c_str(), run.res.hasGz ? " gzip=" : "",
@@ -707,13 +718,45 @@ struct Explorer
   }
   bool lastBad = false;
   bool residualNoted = false;
+  std::string lastCase;
 
-  void rec(std::vector<int> &at, int nSteps)
+  // A step is independent of every toggle (commutes with it) if it cannot observe the toggled entry X:
+  //  - read/close on an already open descriptor (a rename never changes an inode's content), or
+  //  - a path syscall whose path is the configured root or one of its ancestors (X lies strictly
+  //    below the canonical root, so resolving such a path never visits X).
+  // Toggling before an independent step k is equivalent to toggling before step k+1.
+  bool independent(const StepRec &s) const
   {
-    if (int(at.size()) >= e.depth)
+    if (s.nr == SYS_read || s.nr == SYS_close)
+      return true;
+    if (s.path.empty() || s.path[0] != '/')
+      return false;
+    std::vector<std::string> pc = comps(s.path), rc = comps(rootCanon);
+    if (pc.size() > rc.size())
+      return false;
+    for (size_t i = 0; i < pc.size(); ++i)
+      if (pc[i] != rc[i])
+        return false;
+    return true;
+  }
+
+  // Levels 1..fullDepth: a toggle before EVERY step.  Levels above: only vectors whose positions all
+  // precede dependent steps (sound by commutation; the independence claim itself is cross-checked on
+  // the full levels: a toggle before an independent step must give the same outcome as before the next).
+  void rec(std::vector<int> &at, std::vector<char> &dep, const Run &parent)
+  {
+    int level = int(at.size()) + 1;
+    if (level > e.depth)
       return;
+    bool reduced = level > e.fullDepth;
+    if (reduced)
+      for (char d : dep)
+        if (!d)
+          return;
     int from = at.empty() ? 0 : at.back() + 1;
-    for (int k = from; k < nSteps && !stop; ++k)
+    bool havePrev = false, prevIndep = false;
+    Lookup prev;
+    for (int k = from; k < int(parent.steps.size()) && !stop; ++k)
     {
       if (sh && sh->timeUp())
       {
@@ -722,10 +765,29 @@ struct Explorer
         r.notes.push_back("deadline reached: exploration stopped early");
         return;
       }
+      bool indep = independent(parent.steps[size_t(k)]);
+      if (reduced && indep)
+      {
+        ++r.counters["por_pruned_positions"];
+        havePrev = false;
+        continue;
+      }
       at.push_back(k);
-      Run run = one(at, false);
-      rec(at, int(run.steps.size()));
+      dep.push_back(indep ? 0 : 1);
+      Run run = one(at, true);
+      if (havePrev && prevIndep)
+      {
+        ++r.counters["por_independence_checks"];
+        if (prev.status != run.res.status || prev.bytes != run.res.bytes || prev.hasGz != run.res.hasGz || prev.gz != run.res.gz)
+          r.violation("harness-internal", "por-independence-broken", lastCase,
+                      "toggle before an 'independent' step gave a different outcome than before the next step");
+      }
+      rec(at, dep, run);
       at.pop_back();
+      dep.pop_back();
+      havePrev = true;
+      prevIndep = indep;
+      prev = run.res;
     }
   }
 };
@@ -817,7 +879,7 @@ bool exploreScenario(Env &e, vr::Report &r, const vr::Shard *sh, const Scenario 
   }
   else
   {
-    Run base = x.one({}, false);
+    Run base = x.one({}, true);
     if (sc.start == 0 && base.res.status != 'F')
       r.violation("harness-internal", "baseline-not-found", sc.text(), "benign baseline lookup did not find the file (vacuous scenario)");
     if (r.samples.size() < r.max_samples && sc.kind == LEAF_TARGET && sc.start == 0 && sc.name == "sub/a.txt")
@@ -826,7 +888,8 @@ bool exploreScenario(Env &e, vr::Report &r, const vr::Shard *sh, const Scenario 
       r.sample(sc.text() + " baseline trace:" + traceText(e.t, logged));
     }
     std::vector<int> at;
-    x.rec(at, int(base.steps.size()));
+    std::vector<char> dep;
+    x.rec(at, dep, base);
   }
   x.g.restoreOriginal(e.depth);
   if (sc.mode == 1)
@@ -852,6 +915,7 @@ int main(int argc, char **argv)
 {
   vr::Args args(argc, argv);
   const int depth = int(args.getInt("depth", args.thorough() ? 3 : 2));
+  const int fullDepth = int(args.getInt("full-depth", 2));
   const double deadline = double(args.getInt("deadline", 0));
   const std::string scratch = scratchRoot(args) + "/" + std::to_string(getpid());
 
@@ -923,13 +987,29 @@ int main(int argc, char **argv)
     args, "C20_race", "model_checking", 120.0, deadline,
     [&](const vr::Shard &sh, vr::Report &r)
     {
+      // tracer and tracee alternate strictly (ptrace ping-pong): keeping both on one CPU turns every
+      // hand-over into a local context switch instead of a cross-CPU wake-up
+      if (!args.kv.count("no-pin"))
+      {
+        long ncpu = sysconf(_SC_NPROCESSORS_ONLN);
+        cpu_set_t cs;
+        CPU_ZERO(&cs);
+        CPU_SET(int((long(sh.w) * (ncpu > 0 ? ncpu : 1)) / sh.W), &cs);
+        sched_setaffinity(0, sizeof cs, &cs);
+      }
       Env e;
       e.depth = depth;
+      e.fullDepth = fullDepth;
       setupEnv(e, scratch + "/w" + std::to_string(sh.w));
       r.rule = "executions in which at least one attacker toggle was injected between two system calls of the lookup "
                "(every execution except the per-scenario baseline)";
       r.bounds["attacker"] = "alternating atomic toggles (rename / renameat2 RENAME_EXCHANGE) of ONE directory entry, 1.." +
-                             std::to_string(depth) + " toggles, at every syscall position of the lookup";
+                             std::to_string(depth) + " toggles; up to " + std::to_string(std::min(depth, fullDepth)) +
+                             " toggles at every syscall position of the lookup" +
+                             (depth > fullDepth ? ", more toggles only at positions before steps that can observe the entry "
+                                                  "(partial-order reduction; independent steps: read/close, path syscalls on the "
+                                                  "root or its ancestors)"
+                                                : "");
       r.bounds["scheduling_points"] = "every syscall entry of the lookup (ptrace), except brk/mmap/munmap/mremap/mprotect/"
                                       "madvise/futex/rt_sig*/getpid/gettid/clock_gettime/gettimeofday/getrandom/sched_yield/"
                                       "set_robust_list/rseq";
